@@ -4,6 +4,7 @@ package c13
 import (
 	"context"
 	"encoding/json"
+	"errors"
 	"fmt"
 	"net/http"
 	"net/http/httptest"
@@ -63,6 +64,9 @@ type Case struct {
 	// HandlersFirst: the custom no-route, no-method and options handlers are given before the middleware options (and before
 	// DefaultOptions, if any) instead of after them: an option list is a set of settings, their order does not pick the handler
 	HandlersFirst bool `json:"handlers_first,omitempty"`
+	// Upsert: updated routes are swapped in by one transaction that first tries to register the route again with its old
+	// options (refused: it exists) and then updates it with the new ones
+	Upsert bool `json:"upsert,omitempty"`
 }
 
 type traceKey struct{}
@@ -297,7 +301,19 @@ func checkCase(c *Case) (err error) {
 		return fmt.Errorf("%s%v", desc, err)
 	}
 	for i, rc := range c.Routes {
-		if rc.Updated >= 0 {
+		if rc.Updated >= 0 && c.Upsert {
+			ep := endpoint(fmt.Sprintf("r%d'", i), 200)
+			err := f.Updates(func(txn *fox.Txn) error {
+				if _, err := txn.Handle("GET", routePattern(i), ep, routeOpts("m", i, rc.N)...); !errors.Is(err, fox.ErrRouteExist) {
+					return fmt.Errorf("registering route %d again: %v, want ErrRouteExist", i, err)
+				}
+				_, err := txn.Update("GET", routePattern(i), ep, routeOpts("u", i, rc.Updated)...)
+				return err
+			})
+			if err != nil {
+				return fmt.Errorf("%supdating route %d in a transaction: %v", desc, i, err)
+			}
+		} else if rc.Updated >= 0 {
 			if _, err := f.Update("GET", routePattern(i), endpoint(fmt.Sprintf("r%d'", i), 200), routeOpts("u", i, rc.Updated)...); err != nil {
 				return fmt.Errorf("%supdating route %d: %v", desc, i, err)
 			}
@@ -446,6 +462,7 @@ func TestConfigurations(t *testing.T) {
 			c.DefaultAt = gen.IntR(t, 0, ng, "defaultAt")
 		}
 		c.HandlersFirst = gen.Chance(t, 1, 3, "handlersfirst")
+		c.Upsert = gen.Chance(t, 1, 3, "upsert")
 		nr := gen.IntR(t, 1, 3, "nroutes")
 		routeMw := 0
 		for i := 0; i < nr; i++ {
